@@ -296,7 +296,10 @@ fn step(w: &mut World, op: &Op, st: &mut Stats) -> Result<(), (&'static str, Str
             for i in 0..*n {
                 d[i * n + i] = 1.0;
             }
-            push_m(w, m, MM { r: *n, c: *n, d });
+            check_matrix(&m, &MM { r: *n, c: *n, d: d.clone() })?;
+            if *n <= 8 {
+                push_m(w, m, MM { r: *n, c: *n, d });
+            }
         }
         Op::WithShape { r, c } => {
             // elements are documented garbage: the model adopts them; shape and count are checked
@@ -654,7 +657,7 @@ fn step(w: &mut World, op: &Op, st: &mut Stats) -> Result<(), (&'static str, Str
             need_v!(v);
             let x = w.vm[*v].clone();
             let n = x.len();
-            if n == 0 || n > 12 {
+            if n == 0 || n > 64 {
                 return Ok(());
             }
             let out = catch(|| diag_matrix(&x)).map_err(|e| ("valid_rejected", format!("diag_matrix panicked: {}", e)))?;
@@ -664,13 +667,15 @@ fn step(w: &mut World, op: &Op, st: &mut Stats) -> Result<(), (&'static str, Str
             }
             vec_check(&out, &exp, "diag_matrix")?;
             let m = catch(|| Matrix::new(out.clone(), n as i32, n as i32)).map_err(|e| ("valid_rejected", format!("Matrix::new of diag_matrix output panicked: {}", e)))?;
-            push_m(w, m, MM { r: n, c: n, d: exp });
+            if n <= 8 {
+                push_m(w, m, MM { r: n, c: n, d: exp });
+            }
         }
         Op::Toeplitz { v } => {
             need_v!(v);
             let x = w.vm[*v].clone();
             let n = x.len();
-            if n == 0 || n > 12 {
+            if n == 0 || n > 64 {
                 return Ok(());
             }
             let out = catch(|| toeplitz(&x)).map_err(|e| ("valid_rejected", format!("toeplitz panicked: {}", e)))?;
@@ -682,12 +687,14 @@ fn step(w: &mut World, op: &Op, st: &mut Stats) -> Result<(), (&'static str, Str
             }
             vec_check(&out, &exp, "toeplitz")?;
             let m = catch(|| Matrix::new(out.clone(), n as i32, n as i32)).map_err(|e| ("valid_rejected", format!("Matrix::new of toeplitz output panicked: {}", e)))?;
-            push_m(w, m, MM { r: n, c: n, d: exp });
+            if n <= 8 {
+                push_m(w, m, MM { r: n, c: n, d: exp });
+            }
         }
         Op::Vandermonde { v, n } => {
             need_v!(v);
             let x = w.vm[*v].clone();
-            if x.is_empty() || *n == 0 || x.len() * n > 144 {
+            if x.is_empty() || *n == 0 || x.len() * n > 512 {
                 return Ok(());
             }
             let out = catch(|| vandermonde(&x, *n)).map_err(|e| ("valid_rejected", format!("vandermonde panicked: {}", e)))?;
@@ -1097,7 +1104,11 @@ impl Tracker {
                 }
             }
             Op::Zeros { r, c } | Op::Ones { r, c } | Op::WithShape { r, c } => self.pm((*r, *c)),
-            Op::Eye { n } => self.pm((*n, *n)),
+            Op::Eye { n } => {
+                if *n <= 8 {
+                    self.pm((*n, *n))
+                }
+            }
             Op::CloneM { m } => {
                 if let Some(s) = g(&self.ms, *m) {
                     self.pm(s)
@@ -1202,7 +1213,7 @@ impl Tracker {
             }
             Op::DiagMatrix { v } | Op::Toeplitz { v } => {
                 if let Some(n) = self.vs.get(*v).copied() {
-                    if n > 0 && n <= 12 {
+                    if n > 0 && n <= 8 {
                         self.pm((n, n))
                     }
                 }
@@ -1240,10 +1251,10 @@ fn gen_op(r: &mut Sm, tr: &Tracker, weights: &[u32; 6], p_fault: f64, special: b
             }
             2 => Op::Zeros { r: r.usize(1, 8), c: r.usize(1, 8) },
             3 => Op::Ones { r: r.usize(1, 8), c: r.usize(1, 8) },
-            4 => Op::Eye { n: r.usize(1, 8) },
+            4 => Op::Eye { n: if r.chance(0.2) { r.usize(9, 64) } else { r.usize(1, 8) } },
             5 => Op::WithShape { r: r.usize(1, 8), c: r.usize(1, 8) },
             6 => Op::CloneM { m },
-            _ => Op::NewVec { data: (0..r.usize(1, 10)).map(|_| Fb(gen_val(r, special))).collect() },
+            _ => Op::NewVec { data: (0..if r.chance(0.15) { r.usize(11, 64) } else { r.usize(1, 10) }).map(|_| Fb(gen_val(r, special))).collect() },
         },
         1 => {
             // shape-changing
